@@ -47,7 +47,15 @@ func (c Coverage2) Index(gi GlyphID) (int, bool) {
 func (cr Coverage2) Len() int {
 	size := 0
 	for _, r := range cr.Ranges {
-		size += int(r.EndGlyphID - r.StartGlyphID + 1)
+		// use the start index stored in the font (which should be the number of glyphs in the previous ranges),
+		// so that the indices returned by Index are always smaller than Len, even for an invalid font
+		end := int(r.StartCoverageIndex) + 1
+		if r.EndGlyphID >= r.StartGlyphID {
+			end += int(r.EndGlyphID - r.StartGlyphID)
+		}
+		if end > size {
+			size = end
+		}
 	}
 	return size
 }
